@@ -10,6 +10,7 @@ import (
 	"math"
 	"math/rand"
 	"sort"
+	"strings"
 )
 
 type generator struct {
@@ -48,6 +49,9 @@ func (g *generator) run(r *runner) {
 		c := g.newCase(g.prop, i)
 		if len(c.fixed) == 0 && c.cfg.Lvl == 1 && g.chance(4) {
 			g.burst(c)
+		} else if len(c.fixed) == 0 && c.cfg.Lvl == 1 && ((g.tier == "thorough" && i%100 == 50) || i == 1000) {
+			g.huge(c) // one case per quick run (sixty in thorough; the model's replay of such a case takes seconds): more than a
+			// thousand elements, loaded by ONE bulk operation
 		}
 		r.runCase(id, c.cfg, c)
 	}
@@ -97,6 +101,81 @@ func (g *generator) burst(c *caseGen) {
 	}
 	c.plan = append(plan, rest...)
 	c.cfg.Extra += " burst=" + fmt.Sprint(n)
+}
+
+// huge: 1100..1400 elements put into the container by a single bulk operation (variadic Add /
+// PushAll, or a successful FromJSON where the loaded state is deterministic), followed by a few
+// bulk and ordinary operations.  Size-gated paths (thresholds like 128 or 1024) are not reached by
+// the other profiles.  Not for the comparator-ordered key-value kinds: their loaders range over a
+// Go map, so the resulting tree shape is not deterministic.
+func (g *generator) huge(c *caseGen) {
+	kind := c.cfg.Kind
+	n := g.between(1030, 1090)
+	vals := make([]int, n)
+	perm := g.rng.Perm(n + 8)
+	for i := range vals {
+		vals[i] = perm[i] // distinct
+	}
+	text := func(xs []int) []byte { return []byte(listText(xs)) }
+	var first *Op
+	var more []*Op
+	pick := func(k int) []int { // k values present in the container, spread over it
+		out := make([]int, 0, k)
+		for i := 0; i < k; i++ {
+			out = append(out, vals[g.intn(n)])
+		}
+		return out
+	}
+	switch kind {
+	case "ArrayList", "SinglyLinkedList", "DoublyLinkedList":
+		first = &Op{Name: "Add", Vs: vals}
+		more = []*Op{{Name: "RemoveAt", I: 128}, {Name: "RemoveAt", I: n - 129}, {Name: "Sort", Cmp: "CNat"}, {Name: "Clear"},
+			{Name: "Add", Vs: pick(3)}, {Name: "RemoveAt", I: 0}, {Name: "Insert", I: 0, Vs: pick(1030)}, {Name: "Add", Vs: pick(1030)},
+			{Name: "Map", F: MapF{Name: "FValPlus", C: 1}}, {Name: "Select", P: Pred{Name: "PValMod", A: 2, B: 0}}}
+	case "HashSet", "LinkedHashSet", "TreeSet":
+		first = &Op{Name: "Add", Vs: vals}
+		more = []*Op{{Name: "RemoveVals", Vs: pick(3)}, {Name: "RemoveVals", Vs: pick(g.between(130, 300))}, {Name: "Add", Vs: pick(40)},
+			{Name: "Union", Vs: []int{}}, {Name: "Inter", Vs: pick(5)}, {Name: "Diff", Vs: pick(2)}, {Name: "Union", Vs: pick(3)},
+			{Name: "Clear"}, {Name: "Add", Vs: pick(4)}, {Name: "Union", Vs: vals}, {Name: "Inter", Vs: vals}, {Name: "Diff", Vs: vals}}
+	case "BinaryHeap":
+		first = &Op{Name: "PushAll", Vs: vals}
+		more = []*Op{{Name: "Pop"}, {Name: "PushAll", Vs: pick(40)}, {Name: "Pop"}, {Name: "Clear"}, {Name: "Push", I: 5}}
+	case "ArrayStack", "LinkedListStack", "ArrayQueue", "LinkedListQueue", "PriorityQueue":
+		first = &Op{Name: "FromJSON", JSON: text(vals), HasJS: true, Stream: "valid"}
+		if kind == "ArrayStack" || kind == "LinkedListStack" {
+			more = []*Op{{Name: "Pop"}, {Name: "Push", I: 7}, {Name: "Pop"}, {Name: "Clear"}, {Name: "Push", I: 1}, {Name: "Push", I: 2}, {Name: "Pop"}}
+		} else {
+			more = []*Op{{Name: "Dequeue"}, {Name: "Enqueue", I: 7}, {Name: "Dequeue"}, {Name: "Clear"}, {Name: "Enqueue", I: 1}, {Name: "Enqueue", I: 2}, {Name: "Dequeue"}}
+		}
+	case "HashMap", "LinkedHashMap", "HashBidiMap":
+		var b strings.Builder
+		b.WriteByte('{')
+		for i, k := range vals {
+			if i > 0 {
+				b.WriteByte(',')
+			}
+			fmt.Fprintf(&b, "\"%d\":%d", k, 5000+i) // distinct values (bidi)
+		}
+		b.WriteByte('}')
+		first = &Op{Name: "FromJSON", JSON: []byte(b.String()), HasJS: true, Stream: "valid"}
+		more = []*Op{{Name: "Remove", I: vals[128]}, {Name: "Remove", I: vals[n-129]}, {Name: "Put", I: vals[128], J: 1}, {Name: "Remove", I: vals[0]},
+			{Name: "Remove", I: vals[n-1]}, {Name: "Put", I: vals[3], J: 2}, {Name: "Clear"}, {Name: "Put", I: 7, J: 7}, {Name: "Put", I: 3, J: 3}}
+	default:
+		return // CircularBuffer (capacity-bound) and the comparator-ordered key-value kinds
+	}
+	// the probe universe stays small (observers are probed with -1..12 only): the complete Values / Keys /
+	// iteration / JSON are compared anyway, which is what a size-gated path would disturb
+	c.U = 12
+	c.VU = c.U
+	c.cfg.Uni = c.U
+	c.lo, c.hi = -1, c.U+1
+	if g.tier != "thorough" && len(more) > 6 {
+		g.rng.Shuffle(len(more), func(a, b int) { more[a], more[b] = more[b], more[a] })
+		more = more[:6]
+	}
+	c.fixed = append([]*Op{first}, more...)
+	c.plan = nil
+	c.cfg.Extra += " huge=" + fmt.Sprint(n)
 }
 
 // ---------- small random helpers ----------
@@ -232,8 +311,11 @@ func (g *generator) btreeOrder() int {
 }
 
 func (g *generator) ringCap() int {
-	if g.chance(6) {
+	switch x := g.intn(100); {
+	case x < 6:
 		return 17
+	case x < 9:
+		return g.pickInt([]int{64, 65, 70, 100, 129}) // larger than any small preallocation
 	}
 	return g.between(1, 6)
 }
